@@ -36,6 +36,13 @@ func runC02(r *fw.Run, p *fw.Program) {
 	c.encodings()
 	c.leafRules()
 	c.bitRules()
+	// readers of more than 64 bits (big integers, text, raw bytes) get their bytes from IOBitReadSeeker.ReadBitsAt:
+	// every fetched byte is moved to its place (borrowed from C01.fetch)
+	{
+		sc := r.Scratch()
+		c01Fetch(sc, p)
+		r.Import(sc, "C01.fetch", "C02.fetch", "the wide readers (big integers, text, byte slices: more than one Read64) get their bytes through IOBitReadSeeker.ReadBitsAt, which moves every fetched byte to its place: byte-copy arm only for aligned offsets, the extraction loop reads byte i of the destination from source bit readSkipBits + 8*i with i running over every destination byte (C01.fetch obligations)", 5, nil)
+	}
 	r.Assumption("math/big, encoding/binary, math.Float32frombits/Float64frombits and golang.org/x/text decoders behave as documented")
 	r.Assumption("bitio.Read64/ReadFull (MSB-first extraction at any alignment) are the subject of C01, not re-decided here")
 }
